@@ -90,7 +90,20 @@ def classify_style_diff(case):
 
 
 def wl_wrap(ctx, rng, case_no):
+    """One generated text is wrapped under its own mode and then under 1-3 further (justify, overflow, no_wrap)
+    combinations at the same width, in random order, in the same process: wrapping must not depend on what was
+    wrapped before (memoised break offsets, mutated inputs ...)."""
     case = gen_case(rng, unique=rng.random() < 0.85)
+    check_one(ctx, rng, case, primary=True)
+    for _ in range(rng.choice([1, 1, 2, 3])):
+        other = dict(case, justify=rng.choice(JUSTIFY), overflow=rng.choice(OVERFLOW), no_wrap=rng.random() < 0.15)
+        if rng.random() < 0.5:
+            other["overflow"] = "fold"
+            other["no_wrap"] = False
+        check_one(ctx, rng, other, primary=False)
+
+
+def check_one(ctx, rng, case, primary=True):
     text = make_text(case, rng)
     width = case["width"]
     wit = {"text": case["text"], "spans": [(G.definition(r), a, b) for r, a, b in case["spans"]],
@@ -124,7 +137,8 @@ def wl_wrap(ctx, rng, case_no):
                 ctx.violation("wrapped-line-too-wide:justify=" + case["justify"],
                               dict(wit, line=line.plain, cells=cellref.width(line.plain)))
     if render_failed:
-        ctx.case_done(("w", repr(wit)), False)
+        if primary:
+            ctx.case_done(("w", repr(wit)), False)
         return
     # (a) fold: no drop / duplicate / reorder of non-blank characters
     if fold:
@@ -190,6 +204,8 @@ def wl_wrap(ctx, rng, case_no):
             if len(ls) > 1:
                 crossing += 1
     ctx.hist("lines", min(len(lines), 10))
+    if not primary:
+        ctx.count("rewraps_of_same_text_under_other_modes")
     ctx.case_done(("w", repr(wit)), len(lines) >= 2 and crossing >= 1,
                   dict(wit, lines=[l.plain for l in lines]))
 
